@@ -31,6 +31,19 @@ M = {
    "	pubKey, err := verifyAuthClaim(reg, purposeChannelBinding, respHello.KeyX509, cb, respHello.Sig)\n	if err != nil {\n		return nil, err\n	}", "	pubKey, err := verifyAuthClaim(reg, purposeChannelBinding, respHello.KeyX509, cb, respHello.Sig)\n	if err != nil {\n		pk2, err2 := x509.ParsePublicKey(respHello.KeyX509)\n		if err2 != nil || len(respHello.Sig) != 64 {\n			return nil, err\n		}\n		pubKey = publicKey{Registry: reg, Key: pk2}\n	}")],
  "c03-early-data-gate-removed": [("p/p2pke/session.go",
    "		if !s.canReceive() {\n			return false, nil, ErrEarlyData{State: s.hsIndex, Nonce: nonce}\n		}", "		if s.cipherIn == nil {\n			return false, nil, ErrEarlyData{State: s.hsIndex, Nonce: nonce}\n		}")],
+ "c04-p2pkeswarm-dial-without-id-comparison": [("s/p2pkeswarm/swarm.go",
+   "		if remoteID == addr.ID {\n			return c.Channel, nil\n		}", "		if remoteID == addr.ID || !remoteID.IsZero() {\n			return c.Channel, nil\n		}"),
+   ("s/p2pkeswarm/swarm.go", "						id := s.config.fingerprinter(pubKey)\n						return id == addr.ID", "						id := s.config.fingerprinter(pubKey)\n						return id == addr.ID || true")],
+ "c04-p2pkeswarm-whitelist-only-on-inbound-handshake": [("s/p2pkeswarm/swarm.go",
+   "		if !s.config.whitelist(Addr[T]{ID: srcID, Addr: msg.Src}) {", "		if false && !s.config.whitelist(Addr[T]{ID: srcID, Addr: msg.Src}) {")],
+ "c04-quicswarm-dial-without-id-check": [("s/quicswarm/quicswarm.go",
+   "	if !(peerAddr.ID == dst.ID) {", "	if false && !(peerAddr.ID == dst.ID) {")],
+ "c04-sshswarm-hostkey-accepts-any": [("s/sshswarm/conn.go",
+   "			if fp != remoteAddr.Fingerprint {", "			if false && fp != remoteAddr.Fingerprint {")],
+ "c04-sshswarm-identity-from-last-offered-key": [("s/sshswarm/conn.go",
+   "			return &ssh.Permissions{Extensions: map[string]string{pubKeyExt: string(pk.Marshal())}}, nil", "			lastOffered = pk\n			return &ssh.Permissions{Extensions: map[string]string{pubKeyExt: string(pk.Marshal())}}, nil"),
+   ("s/sshswarm/conn.go", "	const pubKeyExt = \"sshswarm-public-key\"", "	const pubKeyExt = \"sshswarm-public-key\"\n	var lastOffered ssh.PublicKey"),
+   ("s/sshswarm/conn.go", "	pubKey, err := ssh.ParsePublicKey([]byte(sconn.Permissions.Extensions[pubKeyExt]))\n	if err != nil {\n		sconn.Close()\n		return nil, err\n	}", "	pubKey, err := ssh.ParsePublicKey([]byte(sconn.Permissions.Extensions[pubKeyExt]))\n	if err != nil {\n		sconn.Close()\n		return nil, err\n	}\n	pubKey = lastOffered")],
  "c05-checkkey-accepts-when-no-key-yet": [("p/p2pke/channel.go",
    "	} else if c.remoteKey.IsZero() && c.params.AcceptKey(pubKey) {\n		return nil\n	}", "	} else if c.remoteKey.IsZero() {\n		return nil\n	}")],
  "c05-onready-without-same-key-comparison": [("p/p2pke/channel.go",
